@@ -91,7 +91,7 @@ def no_spans(x):
 
 CONFIG = {
     "C01": {
-        "lean_modules": ["Darling.Props.C01", "Darling.Props.C02"],
+        "lean_modules": ["Darling.Props.C01", "Darling.Props.C02", "Darling.Props.C01Corpus"],
         "streams": [
             {"name": "c01", "n": {"quick": 8000, "thorough": 160000},
              "trivial": lambda case, ans: not ans.startswith("(ok")},
@@ -104,7 +104,7 @@ CONFIG = {
         "partial": "theorems are stated for the struct parser's item loop and literal (FromMeta structs; C08.walk_is_one_list reduces the element-level traits' attribute walk to the same loop; enums via C09's model); newtype / unit receivers proxy and are covered by the correspondence only",
     },
     "C02": {
-        "lean_modules": ["Darling.Props.C02"],
+        "lean_modules": ["Darling.Props.C02", "Darling.Props.C01Corpus"],
         "streams": [
             {"name": "c02", "n": {"quick": 12000, "thorough": 240000},
              "trivial": lambda case, ans: not ans.startswith("(err")},
@@ -197,7 +197,7 @@ CONFIG = {
         "partial": "wrapped members are covered for body entries (SpannedValue<..>, WithOriginal<.., syn::Field|Variant>) and generics (darling::Result<..>, WithOriginal<.., syn::Generics>), not for ident / vis / ty (darling offers no wrapper impls there); spans of plain magic members are not compared; the per-receiver wiring (which member gets which part) lives in the executable Env layer and is tied by the correspondence, the theorems cover the total functions it calls",
     },
     "C07": {
-        "lean_modules": ["Darling.Props.C07", "Darling.Props.C07Universe", "Darling.Props.C07Outer"],
+        "lean_modules": ["Darling.Props.C07", "Darling.Props.C07Universe", "Darling.Props.C07Outer", "Darling.Props.C07Recv", "Darling.Props.C07OuterRun"],
         "streams": [
             {"name": "c07o", "n": {"quick": 6000, "thorough": 120000}, "trivial": lambda case, ans: False},
             {"name": "c16m", "n": {"quick": 3000, "thorough": 60000}, "trivial": lambda case, ans: False},
